@@ -1,6 +1,7 @@
 package c20
 
 import (
+	"errors"
 	"fmt"
 	"io"
 	"log"
@@ -14,6 +15,7 @@ import (
 	"time"
 
 	"github.com/AdguardTeam/golibs/logutil/slogutil"
+	"github.com/AdguardTeam/golibs/netutil/httputil"
 
 	"verifharness/internal/vh"
 )
@@ -66,11 +68,46 @@ func (e *env) lbInner() http.Handler {
 		}
 		beh, _ := strconv.Atoi(r.Header.Get("X-Beh"))
 		w.Header().Set("X-Rid", strconv.Itoa(rid))
-		for k, o := range loopbackBehaviours[beh%len(loopbackBehaviours)] {
-			if o.Op == "wh" {
+		upIdx, _ := strconv.Atoi(r.Header.Get("X-Up"))
+		for k, o := range effectiveOps(loopbackBehaviours[beh%len(loopbackBehaviours)], loopbackChains[upIdx%len(loopbackChains)]) {
+			rc := http.NewResponseController(w)
+			data := fmt.Sprintf("data-%d-%d;", rid, k)
+			switch o.Op {
+			case "wh":
 				w.WriteHeader(o.C)
-			} else {
-				_, _ = io.WriteString(w, fmt.Sprintf("data-%d-%d;", rid, k))
+			case "w":
+				_, _ = io.WriteString(w, data)
+			case "hj":
+				conn, _, err := rc.Hijack()
+				if o.C == 3 { // a foreign wrapper hides the server's Hijacker
+					if !errors.Is(err, http.ErrNotSupported) {
+						bad = append(bad, fmt.Sprintf("Hijack of request %d behind a wrapper without Unwrap: %v", rid, err))
+					}
+					continue
+				}
+				if err != nil {
+					bad = append(bad, fmt.Sprintf("Hijack of request %d failed although the server's writer supports it: %v", rid, err))
+					w.WriteHeader(http.StatusInternalServerError)
+					continue
+				}
+				// the handler owns the connection: it answers by hand
+				_, _ = fmt.Fprintf(conn, "HTTP/1.1 299 Hijacked\r\nX-Rid: %d\r\nContent-Length: %d\r\nConnection: close\r\n\r\n%s", rid, len(data), data)
+				_ = conn.Close()
+			default:
+				var err error
+				switch o.Op {
+				case "fl":
+					err = rc.Flush()
+				case "srd":
+					err = rc.SetReadDeadline(time.Now().Add(time.Minute))
+				case "swd":
+					err = rc.SetWriteDeadline(time.Now().Add(time.Minute))
+				case "efd":
+					err = rc.EnableFullDuplex()
+				}
+				if reach := reaches(loopbackChains[upIdx%len(loopbackChains)], o.Op); (err == nil) != reach {
+					bad = append(bad, fmt.Sprintf("%s of request %d behind wrappers %v: error %v", o.Op, rid, loopbackChains[upIdx%len(loopbackChains)], err))
+				}
 			}
 		}
 		c := e.col
@@ -100,6 +137,23 @@ func (t *trailerBody) Read(p []byte) (int, error) {
 	return n, err
 }
 
+// loopbackChains are the foreign writer wrappers of the loopback servers.
+var loopbackChains = [][]string{nil, {"unwrap"}, {"flushfwd"}, {"unwrap", "unwrap"}}
+
+// effectiveOps is what a handler scripted with ops does behind the given
+// wrappers: a Hijack that cannot get through is answered with a 500.
+func effectiveOps(ops []op, chain []string) []op {
+	out := make([]op, 0, len(ops)+1)
+	for _, o := range ops {
+		if o.Op == "hj" && !reaches(chain, "hj") {
+			out = append(out, op{Op: "hj", C: 3}, op{Op: "wh", C: http.StatusInternalServerError})
+			continue
+		}
+		out = append(out, o)
+	}
+	return out
+}
+
 // runLoopback sends real HTTP requests over the loopback interface through
 // a net/http server whose handler is mw.Wrap(inner).  It returns the number
 // of requests, or a reason why the run was skipped (no network in the
@@ -107,18 +161,26 @@ func (t *trailerBody) Read(p []byte) (int, error) {
 func runLoopback(res *vh.Result, clients, reqs int) (n int, skipped string) {
 	e := &env{retain: true, col: &collector{raddr: map[int]string{}, runs: map[int]int{}, bad: map[int][]string{}}}
 	mw := e.newMw()
-	var srv *httptest.Server
+	// one server per chain of foreign middlewares, all through the SAME LogMiddleware:
+	// httputil.Wrap(inner, foreign..., mw)
+	srvs := make([]*httptest.Server, len(loopbackChains))
 	if pv, panicked := vh.Try(func() {
-		srv = httptest.NewUnstartedServer(mw.Wrap(e.lbInner()))
-		srv.Config.ErrorLog = log.New(io.Discard, "", 0)
-		srv.Start()
+		for i, chain := range loopbackChains {
+			srvs[i] = httptest.NewUnstartedServer(throughUp(chain, []*httputil.LogMiddleware{mw}, []int{1}, e.lbInner()))
+			srvs[i].Config.ErrorLog = log.New(io.Discard, "", 0)
+			srvs[i].Start()
+		}
 	}); panicked {
 		return 0, fmt.Sprint(pv)
 	}
-	defer srv.Close()
+	defer func() {
+		for _, s := range srvs {
+			s.Close()
+		}
+	}()
 	type sent struct {
-		rid, beh int
-		problems []string
+		rid, beh, up int
+		problems     []string
 	}
 	all := make([][]sent, clients)
 	var wg sync.WaitGroup
@@ -135,8 +197,10 @@ func runLoopback(res *vh.Result, clients, reqs int) (n int, skipped string) {
 				rid := 9000000 + ci*10000 + k + 1
 				sp := mkSpec(rid)
 				beh := rnd.IntN(len(loopbackBehaviours))
-				ops := loopbackBehaviours[beh]
-				s := sent{rid: rid, beh: beh}
+				up := rnd.IntN(len(loopbackChains))
+				srv := srvs[up]
+				ops := effectiveOps(loopbackBehaviours[beh], loopbackChains[up])
+				s := sent{rid: rid, beh: beh, up: up}
 				var rbody io.Reader = strings.NewReader(sp.body)
 				withTrailer := k%3 == 0
 				var tr *trailerBody
@@ -161,6 +225,7 @@ func runLoopback(res *vh.Result, clients, reqs int) (n int, skipped string) {
 					req.Header[hk] = slices.Clone(hv)
 				}
 				req.Header.Set("X-Beh", strconv.Itoa(beh))
+				req.Header.Set("X-Up", strconv.Itoa(up))
 				resp, err := cl.Do(req)
 				if err != nil {
 					netMu.Lock()
@@ -172,14 +237,22 @@ func runLoopback(res *vh.Result, clients, reqs int) (n int, skipped string) {
 				resp.Body.Close()
 				var made []call
 				want := ""
+				wantStatus := 0
 				for j, o := range ops {
 					made = append(made, call{Op: o.Op, C: o.C})
 					if o.Op == "w" {
 						want += fmt.Sprintf("data-%d-%d;", rid, j)
 					}
+					if o.Op == "hj" && o.C == 1 { // the handler answered by hand on the hijacked connection
+						want, wantStatus = fmt.Sprintf("data-%d-%d;", rid, j), 299
+						break
+					}
 				}
-				if resp.StatusCode != status(made) {
-					s.problems = append(s.problems, fmt.Sprintf("client of request %d got status %d, its handler invocation set %d", rid, resp.StatusCode, status(made)))
+				if wantStatus == 0 {
+					wantStatus = status(made)
+				}
+				if resp.StatusCode != wantStatus {
+					s.problems = append(s.problems, fmt.Sprintf("client of request %d got status %d, its handler invocation set %d", rid, resp.StatusCode, wantStatus))
 				}
 				if string(body) != want {
 					s.problems = append(s.problems, fmt.Sprintf("client of request %d got body %q, its handler invocation wrote %q", rid, body, want))
@@ -214,7 +287,7 @@ func runLoopback(res *vh.Result, clients, reqs int) (n int, skipped string) {
 		for _, s := range list {
 			n++
 			sp := mkSpec(s.rid)
-			ops := loopbackBehaviours[s.beh]
+			ops := effectiveOps(loopbackBehaviours[s.beh], loopbackChains[s.up])
 			pr := append(s.problems, c.bad[s.rid]...)
 			if c.runs[s.rid] != 1 {
 				pr = append(pr, fmt.Sprintf("the inner handler ran %d times for request %d", c.runs[s.rid], s.rid))
